@@ -66,6 +66,11 @@ func (e *SpecEnv) evalAlgebraBuiltin(name string, args []Expr) (SV, bool) {
 		fc.eng.declareUF(fc, "bsub", []string{"Int", "Int", "Int"}, "Int")
 		fc.assumes[algebraNote] = true
 		return SV{t: app("bsub", c.t, lo.t, hi.t), typ: mathInt}, true
+	case "noaxioms":
+		// noaxioms(): true; in a lemma's `requires` it keeps the property-scoped axioms out of that lemma (ext_lemma_axioms.go),
+		// so that a purely arithmetic lemma stays in a decidable fragment (a counter-model is then found at once)
+		noLemmaAxioms[fc] = true
+		return SV{t: "true", typ: boolT}, true
 	case "stralgebra":
 		// stralgebra(): true; switches the algebra axioms on for the function / lemma whose specification (or a scoped axiom,
 		// e.g. `axiom @C33 stralgebra()`) mentions it -- for specifications that use only Go strings (a + b, s[lo:hi], len)
